@@ -1132,6 +1132,9 @@ class Agent(dbus.service.Object):
 
         if ExtensionKey.SENDER_LISTEN in extmap:
             interval_ms = int(extmap[ExtensionKey.SENDER_LISTEN])
+            if not 0 <= interval_ms < 2 ** 31:
+                # announced as INT32 on the bus
+                raise ValueError('Sender Listen interval {} out of range'.format(interval_ms))
             node_id = str(extmap.get(ExtensionKey.SENDER_NODEID, ''))
             self.__logger.info('Sender Listen for %d ms from %s', interval_ms, node_id)
 
